@@ -248,20 +248,25 @@ impl<
             .map_or(Vec::with_capacity(0), |m| {
                 m.iter()
                     // Sanity check. Verify that the store agrees that this key is expired.
-                    .filter_map(|(k, v)| {
+                    .filter_map(|(k, _)| {
                         self.expiration(k)
                             .and_then(|t| {
                                 if !t.is_zero() && t.is_expired() {
                                     let cost = policy.cost(k);
-                                    policy.remove(k);
-                                    self.try_remove(k, *v)
+                                    // The entry under this index has expired, whichever key's listing
+                                    // (possibly a stale one of a colliding key) led here: reclaim it,
+                                    // and release its charge only together with it.
+                                    self.try_remove(k, 0)
                                         .map(|maybe_sitem| {
-                                            maybe_sitem.map(|sitem| CrateItem {
-                                                val: Some(sitem.value.into_inner()),
-                                                index: sitem.key,
-                                                conflict: sitem.conflict,
-                                                cost,
-                                                exp: t,
+                                            maybe_sitem.map(|sitem| {
+                                                policy.remove(k);
+                                                CrateItem {
+                                                    val: Some(sitem.value.into_inner()),
+                                                    index: sitem.key,
+                                                    conflict: sitem.conflict,
+                                                    cost,
+                                                    exp: t,
+                                                }
                                             })
                                         })
                                         .ok()
@@ -285,14 +290,17 @@ impl<
 
         let mut removed_items = Vec::new();
         if let Some(items) = items {
-            for (k, v) in items.iter() {
+            for (k, _) in items.iter() {
                 let expiration = self.expiration(k);
                 if let Some(t) = expiration {
                     if !t.is_zero() && t.is_expired() {
                         let cost = policy.cost(k);
-                        policy.remove(k);
-                        let removed_item = self.try_remove(k, *v)?;
+                        // The entry under this index has expired, whichever key's listing
+                        // (possibly a stale one of a colliding key) led here: reclaim it,
+                        // and release its charge only together with it.
+                        let removed_item = self.try_remove(k, 0)?;
                         if let Some(sitem) = removed_item {
+                            policy.remove(k);
                             removed_items.push(CrateItem {
                                 val: Some(sitem.value.into_inner()),
                                 index: sitem.key,
